@@ -224,6 +224,9 @@ vp_on_wait(ldb_cond_t *cv) {
   waits++;
   VP_ASSUME(waits <= VP_MAXWAIT);
   if (cv == &db.background_work_finished_signal) {
+    /* C09: once an error is latched no background work is scheduled any more,
+       so nobody would ever signal this condition variable again */
+    VP_ASSERT(db.bg_error == LDB_OK, "C09 a writer never goes to sleep on background work while a background error is latched");
     if (db.imm != NULL && vp_bool()) {
       db.imm = NULL;
       db.has_imm = 0;
